@@ -149,7 +149,8 @@ def execute(scn, keep_log=False, hook=None):
         st = w.stacks[m['stack']]
         data = payload(m['fill'], m['len'])
         mode = common.msg_mode(st.cfg, m)
-        sure = sum(1 for r in inflight[m['stack']] if r['kind'] == mode and r['done'] is None)
+        # (a call that is parked inside send_pgn right now may or may not have taken its session number yet: not counted as certain)
+        sure = sum(1 for r in inflight[m['stack']] if r['kind'] == mode and r['done'] is None and not r.get('parked_call'))
         maybe = sum(1 for r in inflight[m['stack']] if r['kind'] == mode and (r['done'] is None or sim.now < r['done'] + release_slack))
         before_frames = len(bus.frames) + len(bus.suppressed)
         before = snapshot(st)
@@ -160,6 +161,7 @@ def execute(scn, keep_log=False, hook=None):
         nested_before = stats['reentrant_submissions']
         pre = m.get('pre') if sim.current is None and not held else None
         if pre:
+            rec0['parked_call'] = True
             # the application thread is parked at its k-th source line inside send_pgn; job threads and reception run on, and with them
             # the submissions made from their callbacks (nested in a transmission, from the acknowledge callback) - a second thread
             # inside send_pgn, for another (SA,DA) pair; submissions for the pair of the parked call wait until it has returned
@@ -169,6 +171,7 @@ def execute(scn, keep_log=False, hook=None):
         finally:
             if pre:
                 held.pop()
+                rec0.pop('parked_call', None)
         was_held = tr is not None and tr.fired > 0
         if was_held:
             stats['preempted_calls'] += 1
